@@ -240,13 +240,31 @@ class FractionScalar(AbstractValueWithQuantityObject):
         # this is exactly the same comparison performed by the Scalar, however as they don't share
         # a base class where this method would fit, it was decided to implement it here, instead
         # of creating a base class just because of this method
+        v1, v2 = self._GetValuesToCompare(other)
+        return v1 < v2
+
+    def _GetValuesToCompare(self, other: Any) -> Tuple[FractionValue, FractionValue]:
         if self.quantity_type != other.quantity_type:
             msg = "can not compare scalars of different quantity types: %r != %r"
-            raise TypeError(msg % self.quantity_type, other.quantity_type)
+            raise TypeError(msg % (self.quantity_type, other.quantity_type))
 
         v1 = self._value
         v2 = other.GetValue(self.unit)
-        return v1 < v2
+        return v1, v2
+
+    # Note: all the operators convert units (total_ordering would derive the ones below from
+    # __eq__, which does not: 1 m != 100 cm).
+    def __le__(self, other: Any) -> bool:
+        v1, v2 = self._GetValuesToCompare(other)
+        return v1 <= v2
+
+    def __gt__(self, other: Any) -> bool:
+        v1, v2 = self._GetValuesToCompare(other)
+        return v1 > v2
+
+    def __ge__(self, other: Any) -> bool:
+        v1, v2 = self._GetValuesToCompare(other)
+        return v1 >= v2
 
     # RegisterFractionScalarConversion -----------------------------------------
     @classmethod
